@@ -216,6 +216,13 @@ class Gen(object):
         how = rng.choice(["verbatim", "permuted", "thinned", "duplicated", "extended"])
         if gran == "mesh":
             how = "verbatim"
+        elif gran not in ("mader",) and rng.random() < 0.06:
+            # the same integer-valued points once written as integers ([0, 1, 2] / arange) and once as floats: the value at
+            # a point must not depend on the type the request happened to have (H4 compares the two requests)
+            ipts = np.rint(pts * 2.0 + 1.0)
+            ipts = np.clip(np.where(np.isfinite(ipts), ipts, 0.0) + 0.0, -1.0e6, 1.0e6)
+            self.call_op(client, st, ipts, thex, layout, cont=rng.choice(["ilist", "iarr"]))
+            return self.call_op(client, st, ipts, thex, layout, cont="nd")
         axis = 1 if layout == "2N" else 0
         n = pts.shape[axis]
         idx = list(range(n))
@@ -910,6 +917,17 @@ def conformance(g, client, qual, rng, tier):
         pts2, thex2, layout2 = g.request_points(st, n=n2)
         g.call_op(client, st, pts2, thex2, layout2, cont="nd")
         yield
+    if not fixed_n and fam.gran not in ("mader", "mesh") and rng.random() < 0.3:
+        # integer-valued points, written the natural way ([0, 1, 2] or np.arange): the same points as floats must give
+        # the same solution (list, tuple and array inputs are equivalent)
+        ipts = world.np.rint(pts * 2.0 + 1.0)
+        ipts = world.np.where(world.np.isfinite(ipts), ipts, 0.0) + 0.0      # finite, and no negative zero (an int has none)
+        ipts = world.np.clip(ipts, -1.0e6, 1.0e6)
+        order_i = ["nd", "ilist", "iarr"]
+        rng.shuffle(order_i)
+        for cont in order_i:
+            g.call_op(client, st, ipts, thex, layout, cont=cont)
+            yield
     if rng.random() < 0.6:
         # a branch-selecting time (t <= 0): the call may raise, but whatever it returns must honour the contract
         g.call_op(client, st, pts, fhex(rng.choice(ODD_TIMES)), layout, cont=rng.choice(["nd", "list"]))
